@@ -126,15 +126,7 @@ func writeJSON(path string, v interface{}) {
 	os.Rename(path+".tmp", path)
 }
 
-func gcBetween() {
-	runtime.GC()
-	runtime.GC()
-	// let the finalizer goroutine run what the collections queued (hertz finalizers put
-	// objects back into pools), so that this happens here and not somewhere inside the next episode
-	for i := 0; i < 16; i++ {
-		runtime.Gosched()
-	}
-}
+func gcBetween() { core.ForceGC() }
 
 func TestSim(t *testing.T) {
 	mode := os.Getenv("VSIM_MODE")
